@@ -67,6 +67,18 @@ impl<C: GCWorkContext> GCWork<C::VM> for Prepare<C> {
         }
 
         for w in &mmtk.scheduler.worker_group.workers_shared {
+            #[cfg(feature = "mmtk_verif")]
+            crate::verif::gc::ev(
+                crate::verif::gc::Kind::DesignatedPush,
+                // `PrepareCollector` is a ZST: every box of it has the same (dangling) address.
+                crate::verif::gc::pid(&*Box::new(PrepareCollector)),
+                ((mmtk.scheduler.worker_group.workers_shared)
+                    .iter()
+                    .position(|x| std::sync::Arc::ptr_eq(x, w))
+                    .unwrap_or(0xff)
+                    << 40)
+                    | crate::verif::gc::tag(std::any::type_name::<PrepareCollector>(), 0xff),
+            );
             let result = w.designated_work.push(Box::new(PrepareCollector));
             debug_assert!(result.is_ok());
         }
@@ -145,6 +157,18 @@ impl<C: GCWorkContext + 'static> GCWork<C::VM> for Release<C> {
         mmtk.scheduler.work_buckets[WorkBucketStage::Release].bulk_add(release_mutator_packets);
 
         for w in &mmtk.scheduler.worker_group.workers_shared {
+            #[cfg(feature = "mmtk_verif")]
+            crate::verif::gc::ev(
+                crate::verif::gc::Kind::DesignatedPush,
+                // `ReleaseCollector` is a ZST: every box of it has the same (dangling) address.
+                crate::verif::gc::pid(&*Box::new(ReleaseCollector)),
+                ((mmtk.scheduler.worker_group.workers_shared)
+                    .iter()
+                    .position(|x| std::sync::Arc::ptr_eq(x, w))
+                    .unwrap_or(0xff)
+                    << 40)
+                    | crate::verif::gc::tag(std::any::type_name::<ReleaseCollector>(), 0xff),
+            );
             let result = w.designated_work.push(Box::new(ReleaseCollector));
             debug_assert!(result.is_ok());
         }
